@@ -122,7 +122,7 @@ func run(c *Concrete, now int64) (ev.M, bool) {
 	ps := callParseStateInit(p.Proof.StateInit)
 	calls := []ev.M{}
 	for _, cl := range ex.calls {
-		calls = append(calls, ev.M{"wc": cl.Wc, "addr": cl.Addr, "method": cl.Method})
+		calls = append(calls, ev.M{"wc": strconv.FormatInt(int64(cl.Wc), 10), "addr": cl.Addr, "method": cl.Method})
 	}
 	m := ev.M{"k": "Check", "p": "C19", "secret": c.Secret, "lp": c.Lp, "lpr": c.Lpr, "want_domain": c.WantDomain,
 		"now": strconv.FormatInt(now, 10), "address": c.Address, "domain": c.Domain, "ts": c.Ts, "sig": c.Sig,
